@@ -20,7 +20,7 @@
    Not mechanised: the correspondence between a source line and the abstract Rd/Wr actions of the summary, CPython's
    switch points, and the composition of several critical sections into one interface call - the last is what the
    run-time linearizability check against LdmConc.ldm_run examines (harness/c16.py). *)
-From FlexVerif Require Import Base.Prelude Base.Interleave Base.Atomic Model.LdmConc Gen.LdmLockSummary Proofs.LdmConcProofs Proofs.AtomicLdm.
+From FlexVerif Require Import Base.Prelude Base.Interleave Base.Atomic Model.LdmConc Gen.LdmLockSummary Proofs.LdmConcProofs Proofs.AtomicLdm Proofs.LdmAttendProofs.
 
 Theorem C16_summary_names :
   (LL_DictionaryDataBase_lock, LL_LDMMaintenanceThread_data_containers_lock, LL_LDMMaintenanceReactive_lock,
@@ -168,6 +168,35 @@ Theorem C16_unsubscribed_is_gone : forall st s a, snd (ldm_step st (LSDel s a)) 
   sub_has s (l_subs (fst (ldm_step st (LSDel s a)))) = false.
 Proof. exact unsub_then_gone. Qed.
 Print Assumptions C16_unsubscribed_is_gone.
+
+(* what a QUIESCENT attendance pass serves (served: a function of the specified state alone) after ANY history *)
+Theorem C16_attendance_serves_only_stored : forall st s, subs_inv st -> In s (served st) ->
+  exists a, In (s, a) (l_subs st) /\ smem a (l_cons st) = true.
+Proof. exact served_owner_registered. Qed.
+Print Assumptions C16_attendance_serves_only_stored.
+
+Theorem C16_attendance_serves_every_stored : forall ops st s a, In (s, a) (l_subs st) ->
+  (forall b, ~ In (LSDel s b) ops) -> ~ In (LCDereg a) ops ->
+  d_items (l_db (fst (ldm_run st ops))) <> [] -> In s (served (fst (ldm_run st ops))).
+Proof. exact stored_still_served. Qed.
+Print Assumptions C16_attendance_serves_every_stored.
+
+Theorem C16_unsubscribed_never_served_again : forall st s a ops, snd (ldm_step st (LSDel s a)) = LR (RBool true) ->
+  (forall b, ~ In (LSAdd s b) ops) -> ~ In s (served (fst (ldm_run (fst (ldm_step st (LSDel s a))) ops))).
+Proof. exact unsubscribed_never_served. Qed.
+Print Assumptions C16_unsubscribed_never_served_again.
+
+Theorem C16_deregistered_never_served_again : forall st s a ops, (forall b, In (s, b) (l_subs st) -> b = a) ->
+  (forall b, ~ In (LSAdd s b) ops) -> ~ In s (served (fst (ldm_run (fst (ldm_step st (LCDereg a))) ops))).
+Proof. exact deregistered_never_served. Qed.
+Print Assumptions C16_deregistered_never_served_again.
+
+Example C16_example_attendance :
+  let ops := [LCReg 1; LCReg 2; LPReg 2; LAdd 100 2; LSAdd 50 2; LSAdd 51 1; LSDel 51 1; LSSnap; LSDel 51 1] in
+  served (fst (ldm_run ldm_init ops)) = [50]
+  /\ snd (ldm_run ldm_init ops) = [LR (RBool true); LR (RBool true); LR (RBool true); LR (RId 0); LR (RBool true);
+                                    LR (RBool true); LR (RBool true); LSet [50]; LR (RBool false)].
+Proof. vm_compute. split; reflexivity. Qed.
 
 (* hypotheses are satisfiable / the statements are not vacuous *)
 Example C16_example_run :
